@@ -269,6 +269,7 @@ pub open spec fn g_switched(g: G, d0: Seq<u8>) -> G { G { sw: true, d0: d0, w: g
 impl<R: Write> TempFileBufferWriter<R> {
 
 //@extract method bigtools/src/utils/file/tempfilebuffer.rs update "^impl<R: Write \+ Send \+ 'static> TempFileBufferWriter<R>$"
+//@rule R16
 //@ret r
 //@sub /fn update\(&mut self\) -> io::Result<\(\)>/ => fn update(&mut self, Tracked(mb): Tracked<&mut MbTok<R>>, Ghost(g): Ghost<G>) -> IoResult<()>
 //@sub /self\.real_file\.swap\(/ => self.real_file.swap1(Tracked(mb),  min=3 count=3
@@ -302,6 +303,7 @@ impl<R: Write> TempFileBufferWriter<R> {
 //@end
 
 //@extract method bigtools/src/utils/file/tempfilebuffer.rs write "Write for TempFileBufferWriter<R>$"
+//@rule R16
 //@ret r
 //@rule R6 min=1
 //@sub /fn write\(&mut self, buf: &\[u8\]\) -> io::Result<usize>/ => fn write(&mut self, buf: &[u8], Tracked(mb): Tracked<&mut MbTok<R>>, Ghost(g): Ghost<G>) -> IoResult<usize>
@@ -349,6 +351,7 @@ impl<R: Write> TempFileBufferWriter<R> {
 //@end
 
 //@extract method bigtools/src/utils/file/tempfilebuffer.rs flush "Write for TempFileBufferWriter<R>$"
+//@rule R16
 //@ret r
 //@sub /fn flush\(&mut self\) -> io::Result<\(\)>/ => fn flush(&mut self) -> IoResult<()>
 //@sig
@@ -361,6 +364,7 @@ impl<R: Write> TempFileBufferWriter<R> {
 //@end
 
 //@extract method bigtools/src/utils/file/tempfilebuffer.rs drop "^impl<R> Drop for TempFileBufferWriter<R>$"
+//@rule R16
 //@presub /let &\(ref lock, ref cvar\) = &\*self\.closed;\s*let mut closed = lock\.lock\(\)\.unwrap\(\);/ => let closed = self.closed.lock(Tracked(cl)); min=1 count=1
 //@sub /fn drop\(&mut self\)/ => fn drop(&mut self, Tracked(cl): Tracked<&mut ClTok<R>>)
 //@sub /std::mem::replace\(/ => mem_replace( min=1 count=1
@@ -390,6 +394,7 @@ impl<R: Write> TempFileBufferWriter<R> {
 impl<R: Write> TempFileBuffer<R> {
 
 //@extract method bigtools/src/utils/file/tempfilebuffer.rs switch "^impl<R: Write \+ Send \+ 'static> TempFileBuffer<R>$"
+//@rule R16
 //@rule R6 min=1
 //@sub /fn switch\(&mut self, new_file: R\)/ => fn switch(&mut self, new_file: R, Tracked(mb): Tracked<&mut MbTok<R>>, Ghost(st): Ghost<BufferState<R>>, Ghost(g): Ghost<G>)
 //@sub /self\.real_file\.swap\(/ => self.real_file.swap1(Tracked(mb),  min=1 count=1
@@ -413,6 +418,7 @@ impl<R: Write> TempFileBuffer<R> {
 //@end
 
 //@extract method bigtools/src/utils/file/tempfilebuffer.rs is_real_file_ready "^impl<R: Write \+ Send \+ 'static> TempFileBuffer<R>$"
+//@rule R16
 //@ret r
 //@presub /let &\(ref lock, _\) = &\*self\.closed;\s*let closed = lock\.lock\(\)\.unwrap\(\);/ => let closed = self.closed.lock(Tracked(cl)); min=1 count=1
 //@sub /fn is_real_file_ready\(&self\)/ => fn is_real_file_ready(&self, Tracked(cl): Tracked<&mut ClTok<R>>)
@@ -430,6 +436,7 @@ impl<R: Write> TempFileBuffer<R> {
 //@end
 
 //@extract method bigtools/src/utils/file/tempfilebuffer.rs len "^impl<R: Write \+ Send \+ 'static> TempFileBuffer<R>$"
+//@rule R16
 //@ret r
 //@rule R6 min=1
 //@presub /let &\(ref lock, ref cvar\) = &\*self\.closed;\s*let mut closed = lock\.lock\(\)\.unwrap\(\);\s*while closed\.is_none\(\) \{\s*closed = cvar\.wait\(closed\)\.unwrap\(\);\s*\}/ => let mut closed = self.closed.wait_closed(Tracked(cl)); min=1 count=1
@@ -452,6 +459,7 @@ impl<R: Write> TempFileBuffer<R> {
 //@end
 
 //@extract method bigtools/src/utils/file/tempfilebuffer.rs await_real_file "^impl<R: Write \+ Send \+ 'static> TempFileBuffer<R>$"
+//@rule R16
 //@ret d
 //@rule R6 min=2
 //@presub /let &\(ref lock, ref cvar\) = &\*self\.closed;\s*let mut closed = lock\.lock\(\)\.unwrap\(\);\s*while closed\.is_none\(\) \{\s*closed = cvar\.wait\(closed\)\.unwrap\(\);\s*\}/ => let mut closed = self.closed.wait_closed(Tracked(cl)); min=1 count=1
@@ -484,6 +492,7 @@ impl<R: Write> TempFileBuffer<R> {
 //@end
 
 //@extract method bigtools/src/utils/file/tempfilebuffer.rs expect_closed_write "^impl<R: Write \+ Send \+ 'static> TempFileBuffer<R>$"
+//@rule R16
 //@ret r
 //@rule R6 min=2
 //@rule R14 min=3
